@@ -189,6 +189,13 @@ func init() {
 		}
 		return tuple{out, pat, found}
 	}
+	intrinsics[v+"Published"] = func(fr *frame, args []value) value {
+		var out []value
+		for _, s := range published(args[0].(string), args[1].(string)) {
+			out = append(out, s)
+		}
+		return out
+	}
 	intrinsics["math.Round"] = func(fr *frame, args []value) value {
 		if f, ok := args[0].(float64); ok {
 			return math.Round(f)
@@ -1149,6 +1156,65 @@ func findPattern(v interface{}) string {
 		}
 	}
 	return ""
+}
+
+func published(kind, name string) []string {
+	var out []string
+	readJSON := func(path string, v interface{}) bool {
+		data, err := os.ReadFile(path)
+		return err == nil && json.Unmarshal(data, v) == nil
+	}
+	switch kind {
+	case "currencies":
+		files, _ := filepath.Glob("/repo/data/currency/*.json")
+		sort.Strings(files)
+		for _, f := range files {
+			var list []struct {
+				Code string `json:"iso_code"`
+			}
+			if readJSON(f, &list) {
+				for _, c := range list {
+					out = append(out, c.Code)
+				}
+			}
+		}
+	case "regimes", "addons":
+		files, _ := filepath.Glob("/repo/data/" + kind + "/*.json")
+		sort.Strings(files)
+		for _, f := range files {
+			var doc struct {
+				Country string `json:"country"`
+				Key     string `json:"key"`
+			}
+			if readJSON(f, &doc) {
+				if kind == "regimes" {
+					out = append(out, doc.Country)
+				} else {
+					out = append(out, doc.Key)
+				}
+			}
+		}
+	case "tags":
+		// name: "regimes/es" or "addons/it-sdi-v1"; tags offered for invoices
+		var doc struct {
+			Tags []struct {
+				Schema string `json:"schema"`
+				List   []struct {
+					Key string `json:"key"`
+				} `json:"list"`
+			} `json:"tags"`
+		}
+		if readJSON("/repo/data/"+name+".json", &doc) {
+			for _, t := range doc.Tags {
+				if t.Schema == "bill/invoice" {
+					for _, k := range t.List {
+						out = append(out, k.Key)
+					}
+				}
+			}
+		}
+	}
+	return out
 }
 
 func publishedExtension(key string) (values []string, pattern string, found bool) {
